@@ -1,5 +1,5 @@
 (* Model of Response::parse (src/response/mod.rs) and Range::parse_multipart_body_with_boundary (src/range/mod.rs) *)
-From Rws Require Import Str Utf8 Num Fs UrlParse RangeSpec Request GenMime Mime StaticRes GenConsts Forms Server.
+From Rws Require Import Str Utf8 Num Unicase Fs UrlParse RangeSpec Request GenMime Mime StaticRes GenConsts Forms Server.
 Open Scope N_scope.
 
 Record presp := mkPresp { pr_version : list N; pr_status : N; pr_reason : list N; pr_headers : list header;
@@ -22,14 +22,14 @@ Definition parse_status_line (line : list N) : option (list N * N * list N) :=
   match split_once t [32] with
   | None => None
   | Some (v, rest) =>
-    if negb (mem (upper v) version_list) then None else
+    if negb (mem (uupper v) version_list) then None else
     match split_once rest [32] with
     | None => None
     | Some (code, rsn) =>
       match parse_i16 code with
       | Some (false, c) =>
         match find (fun p => N.eqb (fst p) c) status_table with
-        | Some p => if beqs (upper (snd p)) (upper rsn) then Some (v, c, rsn) else None
+        | Some p => if beqs (uupper (snd p)) (uupper rsn) then Some (v, c, rsn) else None
         | None => None end
       | _ => None            (* negative codes are never in the table *)
       end
@@ -48,7 +48,7 @@ Definition signed_le (a b' : bool * N) : bool :=
   | (false, _), (true, _) => false
   end.
 Definition parse_cr_value (v : list N) : option ((bool * N) * (bool * N) * (bool * N)) :=
-  let l := lower (trim v) in
+  let l := ulower (trim v) in
   match split_once l [32] with
   | None => None
   | Some (u, rest) =>
